@@ -12,6 +12,8 @@ import math
 
 import numpy as np
 
+from .. import harness as H
+
 PID = "C16"
 RULE = (
     "case = (raster cube, zone raster); 1..1000 zones incl. empty ones and zone-nodata pixels, nodata/NaN share 0..100 %, "
@@ -95,7 +97,7 @@ def gen_small(rng, it):
     ny, nx = int(rng.integers(1, 40)), int(rng.integers(1, 40))
     nz = int(rng.choice([1, 2, 3, 7, 50, 1000]))
     ddt = ["int16", "float32", "float64", "int32", "uint8"][it % 5]
-    zdt = ["int16", "int32", "int64", "uint8"][it % 4]
+    zdt = ["int16", "int32", "int64", "uint8"][H.pick(it, 1, 4)]
     if zdt == "uint8":
         nz = min(nz, 200)
     z_nodata = 255 if zdt == "uint8" else int(rng.choice([-1, 32767]))
@@ -134,7 +136,7 @@ def shard_small(spec, R):
         if R.out_of_time():
             break
         px, zones, nz, nodata, z_nodata = gen_small(rng, it)
-        odt = np.float32 if it % 3 else np.float64
+        odt = np.float32 if H.pick(it, 2, 3) else np.float64
         case = {"pixels": px if px.size < 2000 else px[:, :8, :8], "zones": zones if zones.size < 2000 else zones[:8, :8], "num_zones": nz, "nodata": nodata, "z_nodata": z_nodata, "out_dtype": np.dtype(odt).name, "truncated": px.size >= 2000}
         R.evaluation()
         R.case(bool((px == nodata).any()), px, zones, nz)
@@ -165,11 +167,11 @@ def shard_small(spec, R):
             zd = xr.DataArray(zones, dims=["y", "x"], attrs={"nodata": z_nodata})
             ids = list(range(nz))
             # the cube / the zones may be stored in another dimension order: pixels and zones are matched by name
-            order = [("time", "y", "x"), ("y", "x", "time"), ("x", "time", "y"), ("time", "x", "y")][(it // 2) % 4]
-            zorder = [("y", "x"), ("x", "y")][(it // 8) % 2]
+            order = [("time", "y", "x"), ("y", "x", "time"), ("x", "time", "y"), ("time", "x", "y")][H.pick(it, 3, 4)]
+            zorder = [("y", "x"), ("x", "y")][H.pick(it, 4, 2)]
             R.count(f"accessor_order_{'_'.join(order)}")
             da_o = da.transpose(*order)
-            if (it // 16) % 2:
+            if H.pick(it, 5, 2):
                 da_o = da_o.copy(data=np.ascontiguousarray(da_o.values))  # really stored that way, not a view
             r = da_o.hdc.zonal.mean(zd.transpose(*zorder), ids, dtype=np.dtype(odt).name, dim_name="zz")
             R.count("accessor_calls")
@@ -184,12 +186,12 @@ def shard_small(spec, R):
             if it % 4 == 0:
                 import dask
 
-                ch = [{"time": 1, "y": -1, "x": -1}, {"time": -1, "y": max(1, zones.shape[0] // 2), "x": -1}, {"time": 1, "y": max(1, zones.shape[0] // 3), "x": max(1, zones.shape[1] // 2)}][(it // 4) % 3]
+                ch = [{"time": 1, "y": -1, "x": -1}, {"time": -1, "y": max(1, zones.shape[0] // 2), "x": -1}, {"time": 1, "y": max(1, zones.shape[0] // 3), "x": max(1, zones.shape[1] // 2)}][H.pick(it, 6, 3)]
                 dd = da.chunk(ch)
-                zz = zd.chunk({"y": ch["y"], "x": ch["x"]}) if (it // 4) % 2 else zd
+                zz = zd.chunk({"y": ch["y"], "x": ch["x"]}) if H.pick(it, 7, 2) else zd
                 try:
                     lazy = dd.hdc.zonal.mean(zz, ids, dtype=np.dtype(odt).name, dim_name="zz")
-                    with dask.config.set(scheduler="threads" if (it // 8) % 2 else "synchronous"):
+                    with dask.config.set(scheduler="threads" if H.pick(it, 8, 2) else "synchronous"):
                         got = lazy.compute()
                 except Exception as e:
                     R.count(f"dask_refused_{type(e).__name__}")
